@@ -9,7 +9,12 @@ CLAIMED = {
    text="Proof for all 2^64 values of every clock field and both colours: timedMode/softLimit/hardLimit are verified against contracts stating the property's clauses (positive, within remaining time, margin kept, move time respected) and a two-copy lemma shows the results depend only on the mover's own clock and the move time. Bit-vector semantics, so int64 overflow of 4*soft is covered.",
    note="Assumes go/ssa faithfulness and solver soundness. The goroutine in handleGo that passes hardLimit to time.NewTimer is not verified (concurrency is outside the technique); only the three functions that compute the budget are.",
    ref="DESIGN.md section 5 C14"),
+ "C15": dict(
+   text="Proof, for every table length 1..2^32, every 64-bit key, every bucket content and every generation byte: match64/bucketIx/LookUp/Insert/Clear/Value are verified against an abstract bucket view (tt.smt2): Insert equals the abstract store on the key's bucket and leaves all other buckets untouched, LookUp hits iff a lane carries the signature and returns the lowest such lane, Clear empties every bucket (loop invariant). The history clauses (a hit returns the latest store for that bucket+signature with the latest non-null move, at most one other key evicted, probe-after-store, bound suppression, mate re-basing round trip, packing) are lemmas over the abstract store, proved for all inputs.",
+   note="Resize/New use unsafe and are not verified (table shape 1 <= len(data) <= 2^32 is a precondition); depths/plies 0..63, bound type <= 2 and |score| <= 10001 are preconditions of Insert as in the property; the composition of single-step lemmas over arbitrary operation sequences is the usual induction carried by the invariant recAgrees/wfBkt.",
+   ref="DESIGN.md section 5 C15"),
 }
+
 
 NOT_APPLICABLE = {
  "C13": "Quantifies over interleavings of goroutines, channels, timers and a WaitGroup; a sequential contract verifier cannot express or decide schedules (DESIGN.md section 5 C13).",
